@@ -88,23 +88,23 @@ func (im *c06Image) mrtd(shape, mode string) []byte {
 }
 
 type c06Req struct {
-	im                *c06Image
-	snp, tdx          bool
-	svn               uint32
-	fam, iid          string
-	vm                uint32
-	prod              int
-	tsvn              uint32
-	early             bool
-	shapes            []string
-	cl                uint64
-	commit, svsm      []byte
-	ts                time.Time
-	sign              bool
-	keysMode          string // full none noca nosigner
-	caErr             string // none primary cert bundle
-	signErr           bool
-	rndSeed           uint64
+	im           *c06Image
+	snp, tdx     bool
+	svn          uint32
+	fam, iid     string
+	vm           uint32
+	prod         int
+	tsvn         uint32
+	early        bool
+	shapes       []string
+	cl           uint64
+	commit, svsm []byte
+	ts           time.Time
+	sign         bool
+	keysMode     string // full none noca nosigner
+	caErr        string // none primary cert bundle
+	signErr      bool
+	rndSeed      uint64
 }
 
 // failing wrappers around the in-memory CA / signer
@@ -190,6 +190,9 @@ func c06ShowGolden(g *epb.VMGoldenMeasurement) string {
 		c06ShowSnp(g.SevSnp), c06ShowTdx(g.Tdx), hx(hc[:]), hx(hb[:]), ts)
 }
 
+// c06WarmImage is a valid firmware different from every generated image (served first through reused Contexts).
+var c06WarmImage = c06Firmware(0x2000, 0x5a, true, true, 0)
+
 func c06One(c *Ctx, r c06Req, tag string) {
 	signer, ca := memKeys()
 	ec := &endorse.Context{Image: r.im.fw, ClSpec: r.cl, Commit: r.commit, Timestamp: r.ts, SvsmSnpMeasurement: r.svsm}
@@ -211,6 +214,29 @@ func c06One(c *Ctx, r c06Req, tag string) {
 		ctx = keys.NewContext(ctx, &keys.Context{CA: &c06CA{ca, r.caErr}, Signer: &c06Signer{signer, r.signErr}})
 	}
 	ctx = endorse.NewContext(ctx, ec)
+	// The request value is reusable: half of the cases first serve ANOTHER image through this very Context (a
+	// long-lived caller replacing Image between requests) — nothing remembered from that request (digests,
+	// measurements, parsed metadata) may appear in the document of this one.
+	// (The technology requests are handed over as copies for that first request: canonicalizeRequest writes the
+	// defaults it chooses — family id, a random image id — into the caller's request value, so a request reused
+	// with an empty image id keeps the id drawn for the first image. The property speaks of the REQUESTED ids;
+	// that behaviour is recorded as an observation in DESIGN §6 C06, not held against it here.)
+	if r.rndSeed%2 == 0 {
+		snp0, tdx0 := ec.SevSnp, ec.Tdx
+		if snp0 != nil {
+			cp := *snp0
+			ec.SevSnp = &cp
+		}
+		if tdx0 != nil {
+			cp := *tdx0
+			cp.MachineShapes = append([]string{}, tdx0.MachineShapes...)
+			ec.Tdx = &cp
+		}
+		ec.Image = c06WarmImage
+		Guard(func() { _, _ = endorse.GoldenMeasurement(ctx) })
+		ec.Image, ec.SevSnp, ec.Tdx = r.im.fw, snp0, tdx0
+		c.Count("context/reused-after-another-image")
+	}
 	uuid.SetRand(&Rng{s: r.rndSeed})
 	rnd := c06ExpectedRandomUUID(r.rndSeed)
 
